@@ -1,4 +1,5 @@
 import Qvnt.Props.C20
+import Qvnt.Props.Code.C20
 open Qvnt
 #print axioms C20_bitsIter
 #print axioms C20_bits_exact
@@ -31,3 +32,6 @@ open Qvnt
 #print axioms C20_maskBitsLoop
 #print axioms C20_qftBits
 #print axioms C20_hLoop_terminates
+#print axioms C20_code_bits
+#print axioms C20_code_vreg
+#print axioms C20_code_view
